@@ -32,7 +32,7 @@ func init() {
 		level: lvlExploration,
 		rule: "exhaustive mode: for every (coder, data shards d=1..6, parity shards p=1..4) ALL 2^d missing-data x 2^p missing-parity subsets x shard lengths x goroutine counts are reconstructed from random shard contents; random mode: seeded larger codes and erasure patterns; singular mode: analytically constructed singular PAR2-Vandermonde sub-systems and their non-singular neighbours; limits: documented size limits. Oracle: success is demanded iff |missing| <= |available parity| and (Vandermonde) the forced sub-matrix (lowest available parity rows x missing columns) is non-singular by the reference elimination. A key is (coder,d,p,missing set,available-parity set,len,g); trivial = nothing missing",
 		assumptions: append([]string{"PAR2 constants 2^n with n not divisible by 3,5,17,257 and the Cauchy definition 1/((d+i) xor j) are taken from the specification / the documented construction, recomputed in internal/ref/gf16"}, commonAssumptions...),
-		opts:        core.WorkerOpts{CrashIsViolation: true, WallSeconds: 1800, Exhaustive: true, Extra: map[string]interface{}{"exhaustive_subspace": "data shards 1..6 x parity shards 1..4: all erasure subsets of data and parity, both coders, listed shard lengths and goroutine counts"}},
+		opts:        core.WorkerOpts{CrashIsViolation: true, WallSeconds: 1800, Exhaustive: true, Extra: map[string]interface{}{"exhaustive_subspace": "data shards 1..6 x parity shards 1..4 (thorough: 1..8 x 1..5): all erasure subsets of data and parity, both coders, listed shard lengths and goroutine counts"}},
 	}})
 }
 
@@ -44,12 +44,16 @@ func (c *c07) Cases(tier string, seed int64) []core.Case {
 	if tier == "thorough" {
 		lens = []int{2, 4, 30, 32, 34, 62, 64, 66, 130}
 		gs = []int{1, 2, 5, 16}
-		nrand = 600
+		nrand = 3000
 	}
 	r := core.Rng("C07", tier, seed)
+	maxD, maxP := 6, 4
+	if tier == "thorough" {
+		maxD, maxP = 8, 5
+	}
 	for _, coder := range []string{"cauchy", "vandermonde"} {
-		for d := 1; d <= 6; d++ {
-			for p := 1; p <= 4; p++ {
+		for d := 1; d <= maxD; d++ {
+			for p := 1; p <= maxP; p++ {
 				cs = append(cs, core.MkCase(fmt.Sprintf("exh-%s-d%d-p%d", coder, d, p), c07Params{Mode: "exhaustive", Coder: coder, D: d, P: p, Seed: r.Int63(), Lens: lens, Gs: gs}))
 			}
 		}
